@@ -676,3 +676,30 @@ Example tile_object_example :
   [(Some false, Some p, None, false); (None, Some p, Some [1; 2], true);
    (Some true, Some p, Some [1; 2], true); (None, Some p, Some [1; 2], true)].
 Proof. vm_compute. reflexivity. Qed.
+
+(* ------------------------------------------------------------------ the address is the dict of dimension values *)
+(* Every single-address call of the file cache acts on tile_location(coord, dimensions) only; two dimension dicts with
+   the same (distinct) keys and values in another insertion order give the same location (file_key_perm), hence the
+   same effect and the same answer in every state. *)
+Lemma file_step_dims_order : forall layout ext link s x y z d1 d2 b,
+  Permutation.Permutation d1 d2 -> NoDup (map fst d1) ->
+  let a1 := mkAddr x y z d1 in let a2 := mkAddr x y z d2 in
+  file_step layout ext link s (Store a1 b) = file_step layout ext link s (Store a2 b) /\
+  file_step layout ext link s (Load a1) = file_step layout ext link s (Load a2) /\
+  file_step layout ext link s (IsCached a1) = file_step layout ext link s (IsCached a2) /\
+  file_step layout ext link s (Remove a1) = file_step layout ext link s (Remove a2).
+Proof.
+  intros layout ext link s x y z d1 d2 b P Hn a1 a2.
+  assert (E : floc layout ext a1 = floc layout ext a2) by (apply file_key_perm; assumption).
+  cbn [file_step]. unfold fstore, fload. rewrite E. repeat split; reflexivity.
+Qed.
+
+(* store under one key order, load under another: the bytes just stored (whatever was there, any link mode), as far
+   as a load of the first order returns them *)
+Lemma store_then_load_other_dims_order : forall layout ext link s x y z d1 d2 b,
+  Permutation.Permutation d1 d2 -> NoDup (map fst d1) ->
+  fload layout ext (fstore layout ext link s (mkAddr x y z d1) b) (mkAddr x y z d2) =
+  fload layout ext (fstore layout ext link s (mkAddr x y z d1) b) (mkAddr x y z d1).
+Proof.
+  intros. unfold fload. f_equal. symmetry. apply file_key_perm; assumption.
+Qed.
